@@ -90,6 +90,13 @@ def obs_record(a, n, refs=("a", "b")):
     for k, v in a["miss"].items():
         h, x = k.split("|")
         o["miss"].append({"H": _split(h), "X": _split(x), "r": _whole(v)})
+    o["cut"], o["miss_s"] = [], []
+    for k, v in a.get("cut", {}).items():
+        w, x, s = k.split("|")
+        o["cut"].append({"W": _split(w), "X": _split(x), "S": _split(s), "r": _set_or(v)})
+    for k, v in a.get("miss_s", {}).items():
+        w, x, s = k.split("|")
+        o["miss_s"].append({"W": _split(w), "X": _split(x), "S": _split(s), "r": _whole(v)})
     o["ref"] = {r: (a["ref"][r] if isinstance(a["ref"][r], int) else 0 if a["ref"][r] == "KeyError" else -1) for r in refs}
     rd = a["refs"] if isinstance(a["refs"], dict) else {}
     o["refs"] = {r: rd.get("refs/heads/" + r, 0) if isinstance(rd.get("refs/heads/" + r, 0), int) else -1 for r in refs}
